@@ -1077,6 +1077,12 @@ class Sim:
         for i in sorted(act):
             if ds.point_depths[i] > ds.max_depth:
                 self.violate("C18", "depth-beyond-max", {"i": i})
+        if P:
+            self.ctx.probes["vad_step_with_nonempty_P"] += 1
+        if not S:
+            self.ctx.probes["vad_run_terminated"] += 1
+        if any(ds.point_depths[i] == ds.max_depth for i in act):
+            self.ctx.probes["vad_step_with_max_depth_node"] += 1
         for p in sorted(P):
             if ds.point_depths[p] != a.max_discretization_depth:
                 self.violate("C18", "pareto-node-not-at-max-depth", {"p": p, "depth": ds.point_depths[p]})
